@@ -617,6 +617,7 @@ def run_impl(case: dict[str, Any]) -> dict[str, Any]:
         obs["build_exc"] = common.exc_class(e) + ": " + repr(e)[:200]
         return obs
     sizes = case["vars"]
+    inner_seen: dict[int, int] = {}
     for run in case["runs"]:
         inputs = {"x": np.array([float(Fraction(t)) for t in run["x"]])}
         for v, vals in run.get("y0", {}).items():
@@ -631,6 +632,11 @@ def run_impl(case: dict[str, Any]) -> dict[str, Any]:
             r["normed"] = None if nr is None else float(nr[-1])
             r["history"] = [float(t) for t in mda.residual_history[n_hist:]]
             r["reported_normed"] = float(mda.normed_residual)
+            r["inner_hist"] = []
+            for j, im in enumerate(getattr(mda, "inner_mdas", None) or []):
+                h = [float(t) for t in im.residual_history]
+                r["inner_hist"].append(h[inner_seen.get(j, 0):] if len(h) >= inner_seen.get(j, 0) else h)
+                inner_seen[j] = len(h)
         except Exception as e:  # noqa: BLE001
             r["exc"] = common.exc_class(e) + ": " + repr(e)[:200]
             r["tb"] = common.short_tb(e)
@@ -909,26 +915,47 @@ ACCEL_CAP = 6  # replay budget for the accelerated runs (exact rationals triple 
 
 
 def replayable(case: dict[str, Any]) -> bool:
-    """Cases the Lean model replays: affine systems, elementary solver, rational acceleration formulas."""
+    """Cases the Lean model replays: affine systems, elementary solver (or MDAChain of elementary solvers),
+    rational acceleration formulas, plain disciplines."""
     m = case["mda"]
     if any(d["kind"] != "lin" for d in case["discs"]):
         return False
-    if m["cls"] not in ALGO_TOKEN or m["accel"] not in ACCEL_TOKEN:
-        return False
     if case.get("groups"):
+        return False
+    if m["cls"] == "MDAChain":
+        extra = m.get("extra", {})
+        return m.get("inner") in ALGO_TOKEN and m["accel"] == "NoTransformation" and not extra.get("initialize_defaults")
+    if m["cls"] not in ALGO_TOKEN or m["accel"] not in ACCEL_TOKEN:
         return False
     return m["cls"] == "MDAJacobi" or case["shape"] == "strong"
 
 
-def protocol_lines(case: dict[str, Any]) -> list[str]:
-    """`sys`, `cfg` and one `run` line per execution (flattened affine system, see Driver/C06.lean)."""
-    sysm = System(case)
-    sizes = sysm.sizes
+def _layout(sysm: System) -> tuple[list[str], dict[str, int], int]:
     names = sorted(sysm.outputs)
     off, n = {}, 0
     for o in names:
         off[o] = n
-        n += sizes[o]
+        n += sysm.sizes[o]
+    return names, off, n
+
+
+def _io_line(sysm: System, members: list[int]) -> tuple[str, list[str]]:
+    """The `io` line of a group of disciplines (variables numbered by sorted name) and the variable names."""
+    _, off, _ = _layout(sysm)
+    allv = sorted(sysm.sizes)
+    num = {v: i for i, v in enumerate(allv)}
+    comps = ["" if v not in off else ",".join(str(off[v] + r) for r in range(sysm.sizes[v])) for v in allv]
+    # an empty component list is written "-" (not a number: parsed as the empty list by the driver? no: use a
+    # variable without components only for x, given as an out-of-range marker)
+    vars_tok = "|".join(c if c else "[]" for c in comps)
+    reads = "|".join(",".join(str(num[v]) for v in sysm.discs[k]["ins"]) or "[]" for k in members)
+    writes = "|".join(",".join(str(num[v]) for v in sysm.discs[k]["outs"]) or "[]" for k in members)
+    return f"io {len(allv)} {vars_tok} {reads} {writes}", allv
+
+
+def _rows_line(case: dict[str, Any], sysm: System) -> str:
+    names, off, n = _layout(sysm)
+    sizes = sysm.sizes
     rows_coef: list[list[Fraction]] = []
     for o in names:
         spec = sysm.discs[sysm.out_owner[o]]["outs"][o]
@@ -943,21 +970,123 @@ def protocol_lines(case: dict[str, Any]) -> list[str]:
     for k in case["order"]:
         idx = [off[o] + r for o in sysm.discs[k]["outs"] for r in range(sizes[o])]
         discs.append(",".join(map(str, idx)))
+    return "sys " + ";".join(common.rats(r) for r in rows_coef) + " " + "|".join(discs)
+
+
+def _consts_start(sysm: System, run: dict[str, Any]) -> tuple[list[Fraction], list[Fraction]]:
+    names, _, _ = _layout(sysm)
+    x = [Fraction(t) for t in run["x"]]
+    consts, start = [], []
+    for o in names:
+        spec = sysm.discs[sysm.out_owner[o]]["outs"][o]
+        for r in range(sysm.sizes[o]):
+            c = Fraction(spec["c"][r])
+            if "x" in spec["m"]:
+                c += sum(Fraction(a) * t for a, t in zip(spec["m"]["x"][r], x))
+            consts.append(c)
+            y0 = run.get("y0", {}).get(o)
+            start.append(Fraction(y0[r]) if y0 is not None else Fraction(0))
+    return consts, start
+
+
+def scc_sequence(case: dict[str, Any]) -> list[list[int]]:
+    """Strongly connected components of the coupling graph of the plain disciplines, producers first
+    (independent of GEMSEO: Tarjan; the members of a component are in the listed order of the case)."""
+    discs = case["discs"]
+    n = len(discs)
+    owner = {o: k for k, d in enumerate(discs) for o in d["outs"]}
+    succ: list[set[int]] = [set() for _ in range(n)]  # producer -> consumer
+    for k, d in enumerate(discs):
+        for v in d["ins"]:
+            if v in owner and owner[v] != k:
+                succ[owner[v]].add(k)
+    index: dict[int, int] = {}
+    low: dict[int, int] = {}
+    stack: list[int] = []
+    on: set[int] = set()
+    comps: list[list[int]] = []
+
+    def visit(v: int) -> None:
+        index[v] = low[v] = len(index)
+        stack.append(v)
+        on.add(v)
+        for w in sorted(succ[v]):
+            if w not in index:
+                visit(w)
+                low[v] = min(low[v], low[w])
+            elif w in on:
+                low[v] = min(low[v], index[w])
+        if low[v] == index[v]:
+            comp = []
+            while True:
+                w = stack.pop()
+                on.discard(w)
+                comp.append(w)
+                if w == v:
+                    break
+            comps.append(comp)
+
+    for v in range(n):
+        if v not in index:
+            visit(v)
+    comps.reverse()  # Tarjan emits consumers first
+    pos = {k: i for i, k in enumerate(case["order"])}
+    return [sorted(c, key=lambda k: pos[k]) for c in comps]
+
+
+def _settings_tokens(case: dict[str, Any]) -> tuple[str, str]:
+    """(chain-level BaseMDASettings fields, settings given for the inner MDAs) as the `k=v,..` tokens."""
+    m = case["mda"]
+    chain = f"tolerance={m['tol']},max_mda_iter={int(m['max_iter'])},warm_start={1 if m['warm'] else 0}"
+    given = []
+    if m.get("inner") in SOLVER_CLASSES:
+        given.append(f"over_relaxation_factor={m['omega']}")
+    if m.get("extra", {}).get("inner_form") == "model":
+        # dict(<Pydantic model>) holds every field, the untouched ones with their default values
+        given += ["tolerance=1/1000000", "max_mda_iter=20", "warm_start=0"]
+    return chain, ",".join(given) or "[]"
+
+
+def protocol_lines(case: dict[str, Any]) -> list[str]:
+    """`sys`, (`io`,) `cfg` and one `run` line per execution — or, for MDAChain, `sys`, (`io`, `grp`) per
+    component and one `chain` line (first execution) — on the flattened affine system, see Driver/C06.lean."""
+    sysm = System(case)
+    sizes = sysm.sizes
+    names, off, n = _layout(sysm)
+    m = case["mda"]
+    if m["cls"] == "MDAChain":
+        lines = [_rows_line(case, sysm)]
+        chain_tok, given_tok = _settings_tokens(case)
+        for comp in scc_sequence(case):
+            io, _ = _io_line(sysm, comp)
+            lines.append(io)
+            d = sysm.discs[comp[0]]
+            self_c = 1 if len(comp) == 1 and any(o in d["ins"] for o in d["outs"]) else 0
+            rows = "|".join(",".join(str(off[o] + r) for o in sysm.discs[k]["outs"] for r in range(sizes[o])) for k in comp)
+            lines.append(
+                f"grp {rows} {self_c} 0 {ALGO_TOKEN[m['inner']]} auto auto {SCALINGS.index(m['scaling'])} "
+                f"{m['omega']} none {chain_tok} {given_tok}"
+            )
+        consts, start = _consts_start(sysm, case["runs"][0])
+        lines.append(f"chain {int(m['max_iter']) + 2} {common.rats(consts)} {common.rats(start)}")
+        return lines
     cpl = sysm.couplings
     res = [off[o] + r for o in cpl for r in range(sizes[o])]
     groups, pos = [], 0
     for o in cpl:
         groups.append(",".join(str(pos + r) for r in range(sizes[o])))
         pos += sizes[o]
-    m = case["mda"]
     accelerated = m["accel"] != "NoTransformation"
+    auto = case["shape"] == "strong"  # one strongly coupled group: the model computes what is resolved
+    res_tok = "auto" if auto else (",".join(map(str, res)) or "[]")
     lines = [
-        "sys " + ";".join(common.rats(r) for r in rows_coef) + " " + "|".join(discs),
+        _rows_line(case, sysm),
+        _io_line(sysm, list(case["order"]))[0],
         "cfg {} {} {} {} {} {} {} {} {} {}".format(
             ALGO_TOKEN[m["cls"]],
-            ",".join(map(str, res)) or "[]",
-            "|".join(groups) or "[]",
-            ",".join(map(str, res)) or "[]",
+            res_tok,
+            "auto" if auto else ("|".join(groups) or "[]"),
+            res_tok,
             m["tol"],
             m["max_iter"],
             SCALINGS.index(m["scaling"]),
@@ -967,17 +1096,7 @@ def protocol_lines(case: dict[str, Any]) -> list[str]:
         ),
     ]
     for run in case["runs"]:
-        x = [Fraction(t) for t in run["x"]]
-        consts, start = [], []
-        for o in names:
-            spec = sysm.discs[sysm.out_owner[o]]["outs"][o]
-            for r in range(sizes[o]):
-                c = Fraction(spec["c"][r])
-                if "x" in spec["m"]:
-                    c += sum(Fraction(a) * t for a, t in zip(spec["m"]["x"][r], x))
-                consts.append(c)
-                y0 = run.get("y0", {}).get(o)
-                start.append(Fraction(y0[r]) if y0 is not None else Fraction(0))
+        consts, start = _consts_start(sysm, run)
         fuel = ACCEL_CAP if accelerated else int(m["max_iter"]) + 2
         lines.append(f"run {fuel} {common.rats(consts)} {common.rats(start)}")
     return lines
@@ -1007,8 +1126,114 @@ def fsqrt(q: Fraction) -> float:
     return v / 2.0 ** (shift // 2) if shift // 2 < 1000 else float(Fraction(v, 2 ** (shift // 2)))
 
 
+def _names_of(ans_tok: str, allv: list[str]) -> list[str] | None:
+    """`sc=<i,i,..>` -> variable names."""
+    try:
+        t = ans_tok.split("=", 1)[1]
+        return [] if t == "[]" else [allv[int(i)] for i in t.split(",")]
+    except (IndexError, ValueError):
+        return None
+
+
+def compare_structure(case: dict[str, Any], obs: dict[str, Any], io_answer: str, members: list[int], observed: list[str] | None) -> list[str]:
+    """The strong couplings the model computes for a group (`io` line) against the ones the real MDA reports."""
+    if observed is None:
+        return []
+    allv = sorted(System(case).sizes)
+    sc = _names_of(io_answer.split(" ")[0], allv) if io_answer.startswith("sc=") else None
+    if sc is None:
+        return [f"driver answered {io_answer[:80]} to the io line"]
+    if sorted(sc) != sorted(observed):
+        names = [case["discs"][k]["name"] for k in members]
+        return [f"strong couplings of {names}: code {sorted(observed)}, model {sorted(sc)}"]
+    return []
+
+
+def compare_chain_with_model(case: dict[str, Any], obs: dict[str, Any], answers: list[str]) -> list[str]:
+    """MDAChain against `chainExecute`: which components get an inner MDA, the settings the inner MDAs received,
+    their strong couplings, their residual histories (first execution) and the returned data."""
+    diffs: list[str] = []
+    m = case["mda"]
+    sysm = System(case)
+    comps = scc_sequence(case)
+    inner_obs = obs.get("inner")
+    if inner_obs is None or "exc" in obs["runs"][0]:
+        return [f"code: {obs.get('inner_exc') or obs['runs'][0].get('exc')}"]
+    by_members = {frozenset(i["discs"]): (j, i) for j, i in enumerate(inner_obs)}
+    tol = float(Fraction(m["tol"]))
+    expected_mdas = []
+    for ci, comp in enumerate(comps):
+        io_ans, grp_ans = answers[1 + 2 * ci], answers[2 + 2 * ci]
+        toks = dict(t.split("=", 1) for t in grp_ans.split(" ")[1:]) if grp_ans.startswith("ok ") else None
+        if toks is None:
+            return [f"driver answered {grp_ans[:80]} to a grp line"]
+        names = frozenset(case["discs"][k]["name"] for k in comp)
+        seen = by_members.get(names)
+        if (toks["mda"] == "1") != (seen is not None):
+            diffs.append(f"component {sorted(names)}: inner MDA in the code: {seen is not None}, in the model: {toks['mda'] == '1'}")
+            return diffs
+        if seen is None:
+            continue
+        j, io = seen
+        expected_mdas.append(j)
+        diffs += compare_structure(case, obs, io_ans, comp, io["strong_couplings"])
+        if not (io["tolerance"] == float(Fraction(toks["tol"])) and io["max_mda_iter"] == int(toks["maxit"]) and io["warm_start"] == (toks["warm"] == "1")):
+            diffs.append(
+                f"settings of the inner MDA of {sorted(names)}: code tolerance={io['tolerance']!r} max_mda_iter={io['max_mda_iter']} "
+                f"warm_start={io['warm_start']}, model tolerance={float(Fraction(toks['tol']))!r} max_mda_iter={toks['maxit']} warm_start={toks['warm'] == '1'}"
+            )
+        if diffs:
+            return diffs
+    if len(expected_mdas) != len(inner_obs):
+        return [f"the code created {len(inner_obs)} inner MDAs, the model {len(expected_mdas)}"]
+    ans = answers[-1]
+    if not ans.startswith("out="):
+        return [f"driver answered {ans[:80]} to the chain line"]
+    segs = ans.split(" ; ")
+    out_tok = segs[0].split("=", 1)[1]
+    mod_out = [] if out_tok == "[]" else [Fraction(v) for v in out_tok.split(",")]
+    r = obs["runs"][0]
+    names_sorted = sorted(sysm.outputs)
+    flat = [v for o in names_sorted for v in r["out"].get(o, [])]
+    ymax = max([abs(v) for v in flat] + [abs(float(v)) for v in mod_out] + [1.0])
+    all_safe = True
+    for seg, j in zip(segs[1:], expected_mdas):
+        toks = seg.split(" ")
+        outcome = toks[0]
+        hist = [Fraction(v) for v in toks[2].split("=", 1)[1].split(",")] if toks[2] != "hist=[]" else []
+        raw = [Fraction(v) for v in toks[3].split("=", 1)[1].split(",")] if toks[3] != "raw=[]" else []
+        ih = r["inner_hist"][j] if j < len(r.get("inner_hist", [])) else []
+        tag = f"inner MDA {inner_obs[j]['discs']}"
+        if not all(math.isfinite(h) for h in ih):
+            return [f"{tag}: non-finite residual history in the code, model: {outcome}"]
+        inv_scale = max([fsqrt(h / w) for h, w in zip(hist, raw) if w > 0] + [1.0])
+        noise = 2.0**-38 * (1 + ymax) * inv_scale
+        safe = True
+        for k, (a, b) in enumerate(zip(ih, hist)):
+            sb = fsqrt(b)
+            band = 2.0**-30 * sb + noise
+            if abs(sb - tol) <= 2 * band:
+                safe = False
+            if not abs(a - sb) <= band:
+                return [f"{tag}: normed residual of iteration {k + 1}: code {a!r}, model {sb!r} (band {band:.2e})"]
+        if outcome == "capped":
+            return diffs
+        if safe and len(ih) != len(hist):
+            return [f"{tag}: code performed {len(ih)} iterations, model {len(hist)} ({outcome})"]
+        if len(ih) != len(hist):
+            all_safe = False
+            break  # decision within the rounding margin: what follows starts from different data
+    if all_safe:
+        if len(flat) != len(mod_out):
+            return [f"returned data has {len(flat)} components, model {len(mod_out)}"]
+        for k, (a, b) in enumerate(zip(flat, mod_out)):
+            if not abs(a - float(b)) <= (2.0**-30 + 2.0**-36) * max(abs(float(b)), 1.0) + 2.0**-38 * (1 + ymax) * 64:
+                return [f"returned component {k}: code {a!r}, model {float(b)!r}"]
+    return diffs
+
+
 def compare_with_model(case: dict[str, Any], obs: dict[str, Any], answers: list[str]) -> list[str]:
-    """Differences between the real MDA and the exact replay.
+    """Differences between the real MDA and the exact replay (`answers`: one per protocol line).
 
     Rounded stream: a normed residual of the code must equal the model's within
     `rel * model + noise`, where `rel` = 2^-30 (2^-20 with an acceleration: the extrapolation
@@ -1017,8 +1242,15 @@ def compare_with_model(case: dict[str, Any], obs: dict[str, Any], answers: list[
     model used. The iteration count is compared only when no model residual is within that band of the
     tolerance.
     """
-    diffs: list[str] = []
     m = case["mda"]
+    if m["cls"] == "MDAChain":
+        return compare_chain_with_model(case, obs, answers)
+    diffs: list[str] = []
+    if case["shape"] == "strong":
+        diffs += compare_structure(case, obs, answers[1], list(case["order"]), obs.get("strong_couplings"))
+        if diffs:
+            return diffs
+    answers = answers[3:]
     accelerated = m["accel"] != "NoTransformation"
     rel = 2.0**-20 if accelerated else 2.0**-30
     tol = float(Fraction(m["tol"]))
@@ -1210,7 +1442,7 @@ def evaluate(res: Result, cases: list[dict[str, Any]], rng: common.Rng, scope: b
     for k, c in enumerate(cases):
         if replayable(c):
             ls = protocol_lines(c)
-            spans[k] = (len(lines) + 2, len(lines) + len(ls))
+            spans[k] = (len(lines), len(lines) + len(ls))
             lines += ls
     answers = common.run_lean_driver(PID, lines) if lines else []
     for k, case in enumerate(cases):
@@ -1379,7 +1611,7 @@ def replay(path: str) -> int:
     for r in obs.get("runs", []):
         print("impl:", {k: r.get(k) for k in ("out", "normed", "exc")}, "iterations:", len(r.get("history", [])))
     if replayable(case):
-        ans = common.run_lean_driver(PID, protocol_lines(case))[2:]
+        ans = common.run_lean_driver(PID, protocol_lines(case))
         for a in ans:
             print("model:", a[:300])
         for d in compare_with_model(case, obs, ans):
